@@ -1,6 +1,6 @@
 //! Module implementing parsing for BIP-0032 HD paths used for key derivation.
 
-use anyhow::{Context as _, Result};
+use anyhow::{ensure, Context as _, Result};
 use std::{
     fmt::{self, Display, Formatter},
     str::FromStr,
@@ -80,6 +80,10 @@ impl FromStr for Component {
         let value = value
             .parse()
             .with_context(|| format!("invalid BIP-0032 path component '{s}'"))?;
+        ensure!(
+            value < 0x8000_0000,
+            "BIP-0032 path component '{s}' out of range, must be less than 2^31",
+        );
 
         Ok(if hardened {
             Component::Hardened(value)
